@@ -122,7 +122,7 @@ def run(ctx):
     n_exh = len(hs)
     if n_exh < 1000:
         raise Machinery('GHistCases emitted %d histories' % n_exh)
-    r = ctx.tlc('ghist/GHistCases.tla', _cfg(8, 4, 4, True), workers=8, simulate=(4000 if ctx.quick else 80000) // 8, depth=30, timeout=3000)
+    r = ctx.tlc('ghist/GHistCases.tla', _cfg(8, 4, 4, True), workers=8, simulate=(24000 if ctx.quick else 200000) // 8, depth=30, timeout=3000)
     sim = [h for h in r.printed if isinstance(h, dict)]
     hs += sim
     obs = pmap(_job, hs, chunk=100)
